@@ -104,3 +104,14 @@ Example C07_kernel_idempotence_guards :
   sites_clean (empty_seq_f Types_Kernels.repaired_empty_seq) w_es_nested = false /\
   sites_clean identity_f w_id_nested = false /\ sites_clean set_literal_f w_set_nested = false.
 Proof. vm_compute. repeat split. Qed.
+
+(** str-concat-in-sequence-literals: the repaired form (7e1e4cc: elements of the updated node) is idempotent on every
+    expression; the pinned form never reached a display nested in a display *)
+From CM Require Import Proofs.StrConcatFacts.
+Theorem C07_kernel_str_concat_idempotent : forall e,
+  rw_str_concat Types_Kernels.repaired_str_concat (rw_str_concat Types_Kernels.repaired_str_concat e) = rw_str_concat Types_Kernels.repaired_str_concat e.
+Proof. exact str_concat_idempotent. Qed.
+Print Assumptions C07_kernel_str_concat_idempotent.
+Theorem C07_kernel_str_concat_pinned_misses_nested : ltac:(let T := type of str_concat_pinned_misses_nested in exact T).
+Proof. exact str_concat_pinned_misses_nested. Qed.
+Print Assumptions C07_kernel_str_concat_pinned_misses_nested.
